@@ -15,6 +15,11 @@ Ops:
 * `docok`, `docfail`             the payload the connector's doc comment gives as success / failure
 * `run`                          validate from scratch on everything so far; prints `res`, and on success
   `buf`, `consumed`, `map`
+
+Spec mode prints `res`, `buf`, `consumed`, `map` only (`expected` / `timeout` are copies of the code's tables
+and are compared impl-vs-model only); its `map` is computed from the `init` op by `specMap` (last entry per
+key), for Bitfinex re-keyed by `rekey`. Number tokens outside the Rust integer type the harness reads them
+into are `bad-op` (`u64?`, `u32?`).
 -/
 namespace BarterModel.Driver.C13S
 open BarterModel.Driver BarterModel.SubValidator
@@ -35,10 +40,20 @@ def parseExchange : String → Option Exchange
 def nChannels : Nat := 2
 def nMarkets : Nat := 3
 
+/-- The harness reads numbers into fixed-width Rust integers (`usize` / `u64`: the instrument, payload ids,
+Kraken's `channelID`, the milliseconds of a `wait`; `u32`: Bitfinex's `chanId` and error code, Okx's error
+code; `u8`: Gateio's error code, already checked below) and answers `bad-op` to a token that does not fit; so
+does this driver. -/
+def natBelow (bound : Nat) (t : String) : Option Nat :=
+  t.toNat?.bind fun n => if n < bound then some n else none
+
+def u64? : String → Option Nat := natBelow (2 ^ 64)
+def u32? : String → Option Nat := natBelow (2 ^ 32)
+
 def parseEntry (t : String) : Option (Key × Nat) :=
   match t.splitOn ":" with
   | [c, m, i] =>
-    match c.toNat?, m.toNat?, i.toNat? with
+    match u64? c, u64? m, u64? i with
     | some c, some m, some i => if c < nChannels && m < nMarkets then some (.sub c m, i) else none
     | _, _, _ => none
   | _ => none
@@ -52,7 +67,7 @@ def parseBit : String → Option Bool
 def parseResp (ex : Exchange) (t : List String) : Option Resp :=
   match ex, t with
   | .binance, ["none"] => some (.binance ⟨none⟩)
-  | .binance, ["some", k] => k.toNat?.map fun k => .binance ⟨some k⟩
+  | .binance, ["some", k] => (u64? k).map fun k => .binance ⟨some k⟩
   | .bybit, [s, m] =>
     match parseBit s, m with
     | some s, "none" => some (.bybit ⟨s, .none⟩)
@@ -61,37 +76,37 @@ def parseResp (ex : Exchange) (t : List String) : Option Resp :=
     | some s, "subscribe" => some (.bybit ⟨s, .subscribe⟩)
     | _, _ => none
   | .bitmex, [s] => (parseBit s).map fun s => .bitmex ⟨s⟩
-  | .coinbase, ["subscribed", n] => n.toNat?.map fun n => .coinbase (.subscribed n)
+  | .coinbase, ["subscribed", n] => (u64? n).map fun n => .coinbase (.subscribed n)
   | .coinbase, ["error"] => some (.coinbase .error)
   | .gateio, ["ok"] => some (.gateio ⟨none⟩)
   | .gateio, ["oknull"] => some (.gateio ⟨none⟩)
   | .gateio, ["err", c] => c.toNat?.bind fun c => if c < 256 then some (.gateio ⟨some c⟩) else none
-  | .kraken, ["subscribed", id] => id.toNat?.map fun id => .kraken (.subscribed id)
+  | .kraken, ["subscribed", id] => (u64? id).map fun id => .kraken (.subscribed id)
   | .kraken, ["error"] => some (.kraken .error)
   | .okx, ["subscribed"] => some (.okx .subscribed)
-  | .okx, ["error", c] => c.toNat?.map fun c => .okx (.error c)
+  | .okx, ["error", c] => (u32? c).map fun c => .okx (.error c)
   | _, _ => none
 
 def parseBfx (t : List String) : Option BfxEvent :=
   match t with
   | ["info", s] => (parseBit s).map .platformStatus
   | ["subscribed", c, m, id] =>
-    match c.toNat?, m.toNat?, id.toNat? with
+    match u64? c, u64? m, u32? id with
     | some c, some m, some id => if c < nChannels && m < nMarkets then some (.subscribed c m id) else none
     | _, _, _ => none
-  | ["error", c] => c.toNat?.map .error
+  | ["error", c] => (u32? c).map .error
   | _ => none
 
 /-- frame ops that do not depend on the connector -/
 def parseCommon {R : Type} (t : List String) : Option (Frame R) :=
   match t with
-  | ["o", id] => id.toNat?.map .other
-  | ["ob", id] => id.toNat?.map .other
+  | ["o", id] => (u64? id).map .other
+  | ["ob", id] => (u64? id).map .other
   | ["ping"] => some .skip
   | ["pong"] => some .skip
   | ["close"] => some .close
   | ["wserr"] => some .transportErr
-  | ["wait", d] => d.toNat?.map .wait
+  | ["wait", d] => (u64? d).map .wait
   | _ => none
 
 /-- `specMode`: the specification takes a documented failure payload for what the documentation says it
@@ -176,11 +191,20 @@ def specObs {R : Type} (all : List (Frame R)) (a b : Except ValErr (IMap × List
   let lb := obs all b
   if la == lb then la else ["res {" ++ resTok a ++ "|" ++ resTok b ++ "}"]
 
+/-- every `channel|market` key of the driver's domain -/
+def allKeys : List Key :=
+  (List.range nChannels).flatMap fun c => (List.range nMarkets).map fun m => Key.sub c m
+
+/-- The instrument map as the specification reads it off the `init` op, without building a hash map: every
+key carries the instrument of the LAST entry given for it (`lastEntry`; theorem `ofList_get_is_last_entry`). -/
+def specMap (entries : List (Key × Nat)) : IMap :=
+  allKeys.filterMap fun k => (lastEntry entries k).map fun v => (k, v)
+
 def specRun (s : DSt) : List String :=
   match s.ex with
   | none => ["bad-op"]
   | some .bitfinex =>
-    let m := IMap.ofList s.entries
+    let m := specMap s.entries
     let t := subscriptionTimeoutMs .bitfinex
     let out := specObs s.bframes (specBfx t m s.bframes) (specBfxDeadline t m s.bframes)
     -- the venue assigns every subscription its own channel id; where the generated venue reuses an id
@@ -191,7 +215,8 @@ def specRun (s : DSt) : List String :=
       if distinctIds m pre then out else out.filter (fun l => !l.startsWith "map ")
     | .error _ => out
   | some ex =>
-    let m := IMap.ofList s.entries
+    -- the generic validators hand the instrument map back as it was given
+    let m := specMap s.entries
     let t := subscriptionTimeoutMs ex
     let k := expectedResponses ex m.length
     let wrap (r : Res Resp) := r.map fun (b, rest) => (m, b, rest)
@@ -203,8 +228,11 @@ def step (specMode : Bool) (runner : DSt → List String) (s : DSt) (toks : List
     match parseExchange name, es.mapM parseEntry with
     | some ex, some es =>
       let m := IMap.ofList es
+      -- `expected` / `timeout` are the model's tables of the code's constants: compared with the
+      -- implementation (correspondence), not stated by the specification
       ({ ex := some ex, entries := es },
-        [s!"expected {expectedResponses ex m.length}", s!"timeout {subscriptionTimeoutMs ex}"])
+        if specMode then [] else
+          [s!"expected {expectedResponses ex m.length}", s!"timeout {subscriptionTimeoutMs ex}"])
     | _, _ => (s, ["bad-op"])
   | ["run"] => (s, runner s)
   | _ =>
